@@ -251,7 +251,11 @@ def norm_index(ctx: Ctx, k: Num, length, what="index"):
         return ck % cl if ck < 0 else ck
     kz, lz = zint(k.z), zint(length)
     ok = z3.And(kz >= -lz, kz < lz)
-    if not ctx.branch(ok, f"{what}-in-range"):
+    guards = getattr(ctx, "guard_stack", None)
+    if guards:
+        # inside the element closure of a summarised loop: the bound is collected and proved once for every position
+        guards[-1].append(ok)
+    elif not ctx.branch(ok, f"{what}-in-range"):
         raise PyRaise("IndexError", f"{what} out of range")
     if ck is not None:
         return ck if ck >= 0 else z3.simplify(lz + ck)
